@@ -254,6 +254,21 @@ func H_C21_str_escape2() {
 	checkParseString(in)
 }
 
+// H_C21_str_escape_pair: a high-surrogate escape "\ud8XX".."\udbXX" followed by two free bytes (which
+// must be a backslash and a 'u' for a valid pair) and four lower-hex digits.
+//
+//verif:props=C21,C20 bounds="\ud[89ab]XX"+2-free-bytes+4-lower-hex-digits
+func H_C21_str_escape_pair() {
+	h := nd.BytesN(9)
+	nd.Assume(h[0] == '8' || h[0] == '9' || h[0] == 'a' || h[0] == 'b')
+	nd.Assume(lowerHex(h[1]) && lowerHex(h[2]))
+	for i := 5; i < 9; i++ {
+		nd.Assume(lowerHex(h[i]))
+	}
+	in := []byte{'"', '\\', 'u', 'd', h[0], h[1], h[2], h[3], h[4], h[5], h[6], h[7], h[8], '"'}
+	checkParseString(in)
+}
+
 // H_C21_lit: null/true/false matching with delimiter.
 //
 //verif:props=C21 bounds=all-byte-strings<=6
